@@ -456,11 +456,16 @@ func TestVerif_C06_hist(t *testing.T) {
 	hist := map[string]int{}
 	hangs := 0
 	for i := 0; i < n; i++ {
-		cr := vNewRand(r.U64())
+		cseed := r.U64()
+		cr := vNewRand(cseed)
 		if only >= 0 && i != only {
 			continue
 		}
 		coq, cls, nt, show := vC06History(cr, 2+cr.Intn(3))
+		if show["kind"].(uint64) == 10 { // a hang is reported only when the same history hangs a second time
+			cr = vNewRand(cseed)
+			coq, cls, nt, show = vC06History(cr, 2+cr.Intn(3))
+		}
 		sink.Emit(name, cls, nt, coq, show)
 		for _, c := range show["calls"].([]map[string]any) {
 			for _, a := range c["changed"].([]string) {
